@@ -189,8 +189,17 @@ Definition showOutcome (r : outcome cerr (instance cval)) : string :=
   | SetFails _ => paren "raw" ["TypeError"]
   end.
 
+(** The boolean side condition of the [_partial] theorems on this scenario (the harness counts
+    it and computes it independently from the implementation's keys): the class reports only
+    name paths. *)
+Definition side_condition (c : cklass) (o : dict) : string :=
+  match c_keys c o with
+  | Ok reported => showB (name_keys reported)
+  | Err _ => "-"
+  end.
+
 (** One line per (class, options): constructor | keys | explain | validate | caller's dictionary
-    after the constructor's aliased writes (= means unchanged). *)
+    after the constructor's aliased writes (= means unchanged) | side condition. *)
 Definition observe (c : cklass) (o : dict) : string :=
   showOutcome (c_instantiate c o) ++ "|" ++
   showKeys (c_keys c o) ++ "|" ++
@@ -201,7 +210,7 @@ Definition observe (c : cklass) (o : dict) : string :=
       let o' := fst (caller_after reported o) in
       if json_eqb (JObj o') (JObj o) then "=" else showDict o'
   | Err _ => "="
-  end.
+  end ++ "|" ++ side_condition c o.
 
 (** One line per (list of classes, list of dictionaries): the matrix of [==] over all pairs of
     constructible instances, row-major over (class index, dictionary index); [-] marks a pair
@@ -216,11 +225,3 @@ Definition eq_matrix (cs : list cklass) (os : list dict) : string :=
                       | Built x, Built y => showB (inst_eq x y)
                       | _, _ => "-"
                       end) insts) ++ "/") insts).
-
-(** The boolean side condition of the [_partial] theorems on this scenario (counted by the
-    harness): the class reports only name paths. *)
-Definition side_condition (c : cklass) (o : dict) : string :=
-  match c_keys c o with
-  | Ok reported => showB (name_keys reported)
-  | Err _ => "-"
-  end.
